@@ -126,7 +126,8 @@ def encPop (p : List (Layer Nat)) : List Int :=
 def encSumm (s : Summary Nat) : List Int :=
   (match s.best with
    | none => [0]
-   | some b => [1] ++ encIMep b.solution ++ encFit b.fitness ++ [(b.accuracy : Int)]) ++
+   | some b => if b.solution.genes.isEmpty then [0] else
+       [1] ++ encIMep b.solution ++ encFit b.fitness ++ [(b.accuracy : Int)]) ++
   [s.elapsed, (s.mutations : Int), (s.crossovers : Int), (s.gen : Int), (s.lastImp : Int)]
 
 /-- symbol table context: `nsym (opcode hasPar arity)*` -/
